@@ -29,6 +29,9 @@ type Case struct {
 	Answer []byte `json:"answer"`         // packed upstream answer (may contain an OPT)
 	Age    int64  `json:"age"`            // seconds the stored entry is aged by
 	Burst  int    `json:"burst"`          // concurrent queries on the aged entry
+	// ReloadLazyOff: the aged entry (stored by an instance with lazy caching on, hence retained past its TTL) is loaded
+	// into an instance with lazy caching off, as after a restart with a changed configuration
+	ReloadLazyOff bool `json:"reload_lazy_off,omitempty"`
 }
 
 const qname = "c05.example."
@@ -107,6 +110,7 @@ func genCase(t *rapid.T) Case {
 		c.Age = 0
 	}
 	c.Burst = rapid.SampledFrom([]int{1, 1, 2, 8, 32}).Draw(t, "burst")
+	c.ReloadLazyOff = c.Lazy > 0 && rapid.IntRange(0, 4).Draw(t, "reloadLazyOff") == 2
 	return c
 }
 
@@ -251,6 +255,10 @@ func runCase(c Case, ctx *hx.Ctx) *hx.Failure {
 	msgExp := e.GetMsgExpirationTime() - c.Age
 	cacheExp := e.GetCacheExpirationTime() - c.Age
 	aged := &cachex.Entry{Key: e.GetKey(), Msg: e.GetMsg(), MsgStoredTime: stored, MsgExpirationTime: msgExp, CacheExpirationTime: cacheExp}
+	if c.ReloadLazyOff {
+		c.Lazy = 0 // from here on c.Lazy is the serving instance's setting
+		ctx.Class("reloaded-into-lazy-off-instance")
+	}
 	b := cachex.New(1024, c.Lazy)
 	defer b.Close()
 	if code, body := b.Load(cachex.EncodeDump([]*cachex.Entry{aged}, 128)); code != 200 {
@@ -467,7 +475,7 @@ func runCase(c Case, ctx *hx.Ctx) *hx.Failure {
 		ctx.Class("clamped-to-1")
 	}
 	if nearBoundary || (mixed && clamp && nFresh > 0) || (nLazy > 0 && c.Burst >= 2) {
-		ctx.Nontrivial(fmt.Sprintf("%d|%x|%d|%d", c.Lazy, c.Answer, c.Age, c.Burst))
+		ctx.Nontrivial(fmt.Sprintf("%d|%x|%d|%d|%v", c.Lazy, c.Answer, c.Age, c.Burst, c.ReloadLazyOff))
 	}
 	ctx.Sample(map[string]any{"lazy_cache_ttl": c.Lazy, "rcode": ans.Rcode, "ttls": ttls, "age_s": c.Age, "burst": c.Burst, "fresh": nFresh, "lazy_hits": nLazy, "not_served": nMiss})
 	return nil
